@@ -265,6 +265,9 @@ func gen(tier string, out *vlib.Out) {
 	// to make the constructor recurse until the stack overflowed — a fatal error, not a panic
 	// (fixed in /repo by badc2e4: it now returns an error)
 	out.Line("new L recursive")
+	// a CYCLIC value (n.Next = n) used to make the pure CopyTo recurse until a fatal stack overflow
+	// (fixed in /repo by 9a0a893: it now returns an error)
+	out.Line("new L purecyclic")
 	// corpus: the defect of DESIGN §6 #12 (struct-typed source field against a scalar destination field)
 	out.Line("new L structvsint")
 	out.Line("copy s=5 d=fresh api=copyto")
@@ -439,6 +442,16 @@ func run(ops []string, out *vlib.Out, sts *stats) {
 		case "new":
 			sts.Cases++
 			st = nil
+			if len(w) == 3 && w[1] == "L" && w[2] == "purecyclic" {
+				n := &Rec{V: 1}
+				n.Next = n
+				var res string
+				if pn := vlib.Catch(func() { res = errTok(copier.CopyTo(n, &Rec{})) }); pn != "" {
+					res = pn
+				}
+				out.Line("%s => %s", line, res)
+				continue
+			}
 			var p pair
 			var optWords []string
 			var res, trie string
